@@ -8,7 +8,7 @@ import Resynth.Model.Interp
 * `addStmt` frame facts: `regs` only grows at the end, by a fresh key
 * `addStmts` over `++`
 -/
-namespace Resynth
+namespace Resynth.Sem
 
 /-! ## `Res` -/
 
@@ -205,7 +205,7 @@ theorem foldl_updateTime_ok : ∀ (ps : List Packet) {st st' : PState},
     simp [Nat.add_assoc]
 
 /-- frames carried by a packet-valued value -/
-def Val.frames : Val → List Bytes
+def _root_.Resynth.Val.frames : Val → List Bytes
   | .pkt p => [p.frame]
   | .pktgen ps => ps.map (·.frame)
   | _ => []
@@ -377,4 +377,4 @@ theorem addStmts_imports_ext (env : Env) : ∀ (ss : List Stmt) (st st' : PState
     · exact ⟨ext2, by rw [h2, h']⟩
     · exact ⟨m :: ext2, by rw [h2, h']; simp⟩
 
-end Resynth
+end Resynth.Sem
